@@ -539,6 +539,7 @@ def parsePFields (s : String) : List PField :=
 
 def parseFn (s : String) : FnKind :=
   if s == "anyval" then .anyval else if s == "anyopen" then .anyopen
+  else if s.startsWith "anyopenx" then .anyopenX ((s.drop 8).toString.toNat?.getD 0)
   else if s.startsWith "ptr" then .ptr ((s.drop 3).toString.toNat?.getD 0)
   else .val ((s.drop 3).toString.toNat?.getD 0)
 
@@ -561,7 +562,8 @@ def runPostActLine (toks : List String) : String :=
     let kindS := fun (k : PAKind) => match k with | .tag => "tag" | .name => "name" | .type => "type"
     let acts := ",".intercalate (log.map fun (a, seen) => s!"{kindS a.kind}:{a.ty}:{if a.ptr then "p" else "v"}:{seen}")
     let exportedFinal := (fields.zip final).filterMap fun (f, v) => if f.exported then some (toString v) else none
-    s!"mpostact {i} ok inputs={fmtTys ((fields.zip plan.filled).filterMap fun (f, b) => if b then some f.ty else none)} acts={if acts.isEmpty then "-" else acts} final={if exportedFinal.isEmpty then "-" else ",".intercalate exportedFinal}"
+    let extras := plan.acts.filterMap (·.extra)
+    s!"mpostact {i} ok inputs={fmtTys (sortNat (dedup (((fields.zip plan.filled).filterMap fun (f, b) => if b then some f.ty else none) ++ extras)))} acts={if acts.isEmpty then "-" else acts} final={if exportedFinal.isEmpty then "-" else ",".intercalate exportedFinal}"
 
 def runCondenseFlows (a : CaseAcc) : String :=
   match condenseFlows stdTyInfo a.pdescs.reverse with
